@@ -67,7 +67,9 @@ func (e Env) dstMAC(r *rand.Rand) refdec.MAC {
 // AppPayload returns an application payload appropriate for the UDP port class.
 func AppPayload(r *rand.Rand, e Env, class int, mac refdec.MAC) (string, []byte) {
 	if r.Intn(6) == 0 {
-		return "random", RandBytes(r, pick(r, 0, 1, 7, 8, 11, 12, 13, 40, 240, 241, 300, 600))
+		// sizes around and beyond one Ethernet MTU: full size frames, baby giants, jumbo frames and what receive offload
+		// hands to a packet socket (several segments merged into one buffer)
+		return "random", RandBytes(r, pick(r, 0, 1, 7, 8, 11, 12, 13, 40, 240, 241, 300, 600, 1472, 1473, 1480, 1481, 1500, 2000, 8972, 17000))
 	}
 	switch class {
 	case refdec.PDHCP4:
@@ -217,7 +219,11 @@ func (e Env) l4(r *rand.Rand, v6 bool, src, dst netip.Addr, mac refdec.MAC, f *F
 		if r.Intn(3) == 0 {
 			h.Options = make([]byte, 4*(1+r.Intn(10)))
 		}
-		return refdec.TCP(h, RandBytes(r, r.Intn(100))), "tcp", 6
+		n := r.Intn(100)
+		if r.Intn(10) == 0 {
+			n = pick(r, 1440, 1460, 1461, 1468, 1469, 2920, 8960, 32000) // full segments, and segments merged by receive offload
+		}
+		return refdec.TCP(h, RandBytes(r, n)), "tcp", 6
 	case c < 13:
 		if v6 {
 			f.L4 = "icmp6"
